@@ -285,11 +285,13 @@ pub fn run() {{
         for lk, lit, arg in FL_LITS:
             if lk == "hex" and vk not in ("I", "V"):
                 continue
-            for form in ("named", "tuple", "variant_n"):
+            for form in ("named", "tuple", "variant_n", "named_skip", "tuple_skip"):
                 k = f"twin:fieldlit:{form}:{vk}:{lk}"
                 if replay and not json.load(open(replay))["key"].startswith(k):
                     continue
-                fld = "_0" if form == "tuple" else "a"
+                if form.endswith("_skip") and lk not in ("bare", "wrapped"):
+                    continue
+                fld = {"tuple": "_0", "tuple_skip": "_1"}.get(form, "a")
                 l = lit % fld if "%s" in lit else lit
                 a = arg % fld if arg else ""
                 attr = f'#[debug("{l}"{a})] '
@@ -299,6 +301,17 @@ pub fn run() {{
                              f'let a = &self.a; f.debug_struct("N").field("a", {fa}).field("b", &self.b).finish() }} }}')
                     ddecl = f"#[derive(derive_more::Debug)] pub struct N {{ {attr}pub a: {vty}, pub b: i32 }}"
                     ctor = f"N {{ a: {vval}, b: 7 }}"
+                elif form == "named_skip":
+                    # a skipped field BEFORE the formatted one (and none after): still closed like finish_non_exhaustive
+                    sdecl = (f"pub struct N {{ pub z: u8, pub a: {vty}, pub b: i32 }}\nimpl Debug for N {{ fn fmt(&self, f: &mut Formatter<'_>) -> fmt::Result {{ "
+                             f'let a = &self.a; f.debug_struct("N").field("a", {fa}).field("b", &self.b).finish_non_exhaustive() }} }}')
+                    ddecl = f"#[derive(derive_more::Debug)] pub struct N {{ #[debug(skip)] pub z: u8, {attr}pub a: {vty}, pub b: i32 }}"
+                    ctor = f"N {{ z: 9, a: {vval}, b: 7 }}"
+                elif form == "tuple_skip":
+                    sdecl = (f"pub struct N(pub u8, pub {vty}, pub i32);\nimpl Debug for N {{ fn fmt(&self, f: &mut Formatter<'_>) -> fmt::Result {{ "
+                             f'let _1 = &self.1; f.debug_tuple("N").field({fa}).field(&self.2).finish_non_exhaustive() }} }}')
+                    ddecl = f"#[derive(derive_more::Debug)] pub struct N(#[debug(skip)] pub u8, {attr}pub {vty}, pub i32);"
+                    ctor = f"N(9, {vval}, 7)"
                 elif form == "tuple":
                     sdecl = (f"pub struct N(pub {vty}, pub i32);\nimpl Debug for N {{ fn fmt(&self, f: &mut Formatter<'_>) -> fmt::Result {{ "
                              f'let _0 = &self.0; f.debug_tuple("N").field({fa}).field(&self.1).finish() }} }}')
@@ -387,7 +400,7 @@ pub fn run() {
                 chk.deviation(k, "no observation", case={"key": k}, expected="runs", observed=o, tags={"kind": "crash"})
                 continue
             for sp, a, b in o["bad"]:
-                tuple_like = form in ("tuple", "variant_t", "fieldlit_tuple")
+                tuple_like = form in ("tuple", "variant_t", "fieldlit_tuple", "fieldlit_tuple_skip")
                 other_opts = sp.replace("#", "") != ""
                 shown = [f for j, f in enumerate(fields) if j not in skips]
                 echoes = any(KINDS[f][3] for f in shown if f in KINDS) or form.startswith("fieldlit")   # (second field: i32)
